@@ -50,6 +50,19 @@ def rank_check(case):
     if out.shape != WAV.shape or np.max(np.abs(out - WAV)) > 1e-9 * scale:
         v.append(("cadzow:full-rank", "%dx%d layout, rank %d (full): output differs from the input by %.3g"
                   % (ncol, nrow, full, float(np.max(np.abs(out - WAV))) if out.shape == WAV.shape else -1)))
+    # several passes (niter > 1) at sufficient rank still return the input
+    for niter in (2, 3):
+        out = cadzow.denoise(WAV.copy(), x, y, r=full, niter=niter)
+        ntr += 1
+        if out.shape != WAV.shape or np.max(np.abs(out - WAV)) > 1e-9 * scale:
+            v.append(("cadzow:full-rank:niter", "%dx%d layout, rank %d (full), niter=%d: output differs from the input by %.3g"
+                      % (ncol, nrow, full, niter, float(np.max(np.abs(out - WAV))) if out.shape == WAV.shape else -1)))
+            break
+    PW0 = np.exp(-1j * 2 * np.pi * (0.011 * x + 0.031 * y))[:, None] * np.array([1.0, 0.5 + 0.2j, -2.0])[None, :]
+    out = cadzow.denoise(PW0.copy(), x, y, r=1, niter=2)
+    ntr += 1
+    if np.max(np.abs(out - PW0)) > 1e-9 * 2:
+        v.append(("cadzow:plane-wave:niter", "%dx%d layout: a single plane wave at rank 1 with niter=2 is changed by %.3g" % (ncol, nrow, float(np.max(np.abs(out - PW0))))))
     # a single plane wave has rank one
     waves = list(itertools.product((0.0, 0.011, 0.05), (0.0, 0.007, 0.031, -0.02)))
     if nc > 48:
